@@ -232,7 +232,7 @@ func (e *Engine) doCall(st *State, fr *Frame, dst *ssa.Call, cc *ssa.CallCommon,
 func (e *Engine) runFn(st *State, fn *ssa.Function, bindings, args []Value, dst *ssa.Call, advanceCaller bool) []*State {
 	nf := &Frame{fn: fn, block: fn.Blocks[0], regs: map[ssa.Value]Value{}, visits: map[int]int{}}
 	st.subAlloc++
-	nf.act = e.canonID(fmt.Sprintf("act|%s|%d", st.curKey, st.subAlloc))
+	nf.act = e.canonID(fmt.Sprintf("act|%s|%d", st.key(), st.subAlloc))
 	if dst != nil {
 		nf.result = dst
 	}
@@ -864,6 +864,26 @@ func (e *Engine) builtin(st *State, fr *Frame, dst *ssa.Call, b *ssa.Builtin, cc
 			return nil
 		}
 		set(args[0])
+	case "clear":
+		// clear(slice) zeroes the elements, clear(map) removes all entries (slices.Delete zeroes the freed tail)
+		switch x := args[0].(type) {
+		case SliceVal:
+			if x.Obj != 0 && x.Len > 0 {
+				arr := st.heap[x.Obj].(ArrayVal)
+				ne := append([]Value(nil), arr.Elems...)
+				elemT := cc.Args[0].Type().Underlying().(*types.Slice).Elem()
+				for i := x.Off; i < x.Off+x.Len; i++ {
+					ne[i] = zeroValue(elemT)
+				}
+				st.heap[x.Obj] = ArrayVal{Elems: ne}
+			}
+		case MapVal:
+			if x.Obj != 0 {
+				st.heap[x.Obj] = &MapObj{}
+			}
+		default:
+			unsupported("clear of %T", x)
+		}
 	case "print", "println":
 	default:
 		unsupported("builtin %s", b.Name())
